@@ -1,0 +1,40 @@
+//go:build verif
+
+package engine
+
+import (
+	"slices"
+
+	"github.com/nspcc-dev/neofs-node/pkg/local_object_storage/shard"
+)
+
+// VerifShards returns the shards attached to the engine (verification harness only).
+func (e *StorageEngine) VerifShards() []*shard.Shard {
+	e.mtx.RLock()
+	defer e.mtx.RUnlock()
+
+	res := make([]*shard.Shard, 0, len(e.shards))
+	for _, sh := range e.shards {
+		res = append(res, sh.Shard)
+	}
+	return res
+}
+
+// VerifPermuteShards reorders the shard list passed to the
+// "engine.unsortedShards" hook point so that shards appear in the order of
+// ids (string shard IDs). Shards missing from ids keep their relative order
+// after the listed ones. Returns false if p is not the hook's argument.
+func VerifPermuteShards(p any, ids []string) bool {
+	ps, ok := p.(*[]shardWrapper)
+	if !ok {
+		return false
+	}
+	rank := func(sw shardWrapper) int {
+		if i := slices.Index(ids, sw.ID().String()); i >= 0 {
+			return i
+		}
+		return len(ids)
+	}
+	slices.SortStableFunc(*ps, func(a, b shardWrapper) int { return rank(a) - rank(b) })
+	return true
+}
